@@ -17,7 +17,7 @@ class Case:
         self.s, self.opts, self.blt, self.run = s, opts, blt, run
 
     def replay_case(self, **extra):
-        d = dict(blt=self.blt, options=self.opts, family=self.s.get('family'))
+        d = dict(blt=self.blt, options=self.opts, family=self.s.get('family'), entry=getattr(self, 'entry', 'dict'))
         d.update(extra)
         return d
 
@@ -30,6 +30,36 @@ OTHER_BLT = '4 2 5 1 2 0 4 2 3 0 3 3 1 0 2 4 2 0 1 1 4 0 0 "Ann" "Bo" "Cat" "Di"
 
 def budget_for(ctx):
     return 2.0 if ctx.quick else 10.0
+
+
+TRUE_WORDS, FALSE_WORDS = ['true', 'yes', 'True', 'YES', 'Yes', 'TRUE'], ['false', 'no', 'False', 'NO', 'No', 'FALSE']
+
+
+def file_tokens(rng, opts, with_rule=True):
+    toks = []
+    for k, v in opts.items():
+        if k == 'rule' and not with_rule:
+            continue
+        if isinstance(v, bool):
+            v = rng.choice(TRUE_WORDS if v else FALSE_WORDS)
+        toks.append('%s=%s' % (k, v))
+    return toks
+
+
+def election_args(entry, opts):
+    "positional arguments after the profile for Election(...); None = the plain dict form"
+    from droop.options import Options
+    if entry == 'dict':
+        return None
+    if entry == 'file-omitted':
+        return ()
+    if entry == 'file-none':
+        return (None,)
+    if entry == 'split-dict':
+        return (dict(rule=opts['rule']),)
+    if entry == 'split-object':
+        return (Options(dict(rule=opts['rule'])),)
+    return (Options(dict(opts)),)
 
 
 def make_case(ctx, rng, weights=None, rules=None, snap_ballots=False, render=False, allow_eq=True,
@@ -72,13 +102,25 @@ def make_case(ctx, rng, weights=None, rules=None, snap_ballots=False, render=Fal
         s['family'] = s['family'] + '+huge'
     if mutate_s is not None:
         mutate_s(rng, s)
+    entry = 'dict'
+    k = rng.random()
+    if k < 0.24 and not s.get('options'):
+        # the same configuration reaching the election another way: written in the ballot file ([droop ...], booleans spelled any
+        # accepted way), split between file and caller, or handed over as an Options object
+        entry = ['file-omitted', 'file-none', 'split-dict', 'split-object', 'object', 'object'][int(k / 0.04)]
+        if entry != 'object':
+            s['options'] = file_tokens(rng, opts, with_rule=entry.startswith('file'))
     blt = gen.render(s)
     other = None
     if rng.random() < 0.08:
         # a caller embedding the package may construct another election (same rule and options) before counting this one
         other = OTHER_BLT
-    run = do_count(blt, opts, budget=budget or budget_for(ctx), snap_ballots=snap_ballots, render=render, construct_also=other)
-    return Case(s, opts, blt, run)
+    run = do_count(blt, opts, budget=budget or budget_for(ctx), snap_ballots=snap_ballots, render=render, construct_also=other,
+                   election_args=election_args(entry, opts))
+    ctx.count('entry:' + entry)
+    case = Case(s, opts, blt, run)
+    case.entry = entry
+    return case
 
 
 def arith_tag(opts):
@@ -145,4 +187,5 @@ def sample_of(case, n_events=12):
 
 
 def replay_run(case_dict, snap_ballots=False, render=False, budget=60.0):
-    return do_count(case_dict['blt'], case_dict['options'], budget=budget, snap_ballots=snap_ballots, render=render)
+    return do_count(case_dict['blt'], case_dict['options'], budget=budget, snap_ballots=snap_ballots, render=render,
+                    election_args=election_args(case_dict.get('entry', 'dict'), case_dict['options']))
